@@ -1,8 +1,54 @@
-import Pun.Model.Proto
+import Pun.Drv.PBoxCommon
+import Pun.Model.Hier
+/-! C07 protocol.  Operands: `N:<rat>`, `I:<a>:<b>`, `P:<left>:<right>`, `D:<quantiles>`, `S:<left>:<right>`.
+
+* `expr <steps> <dep> <op> <l> <r>`   — Python expression `l op r` under the ambient dependency
+* `meth <steps> <dep> <op> <l> <r>`   — `l.<op>(r, dependency=dep)`, `l` a p-box (or DS structure, delegated)
+* `spec <steps> <dep> <op> <l> <r>`   — convert both operands first, then the p-box operation
+* `conv <steps> <which> <x>`          — `pbox_abc.convert_pbox` (`which = p`) / `operation.convert` (`which = o`)
+anything else falls through to the shared p-box handler. -/
 namespace Pun.Drv.C07
-open Pun
+open Pun Pun.PBox Pun.Hier Pun.Drv.PBoxCommon
+
+def parseOpd (s : String) : Option Opd :=
+  match s.splitOn ":" with
+  | ["N", c] => (parseRat c).map Opd.num
+  | ["I", a, b] => do let a ← parseRat a; let b ← parseRat b; some (.ivl a b)
+  | ["P", l, r] => (parsePB l r).map Opd.pbox
+  | ["D", q] => (parseList q).map Opd.dist
+  | ["S", l, r] => (parsePB l r).map Opd.dss
+  | _ => none
+
+def showRes : Except Err Res → String
+  | .ok (.num c) => s!"ok N {showRat c}"
+  | .ok (.ivl a b) => s!"ok I {showRat a} {showRat b}"
+  | .ok (.pbox p) => s!"ok P {showList p.left} {showList p.right}"
+  | .error e => s!"err {e}"
+
+def showP (r : Except Err PB) : String := showRes (r.map Res.pbox)
 
 def handle : List String → String
-  | _ => "bad-op"
+  | ["expr", steps, dep, op, l, r] =>
+    match parseNat steps, parseDep dep, parseOp op, parseOpd l, parseOpd r with
+    | some n, some d, some o, some x, some y => showRes (evalOp n d o x y)
+    | _, _, _, _, _ => "bad-op"
+  | ["meth", steps, dep, op, l, r] =>
+    match parseNat steps, parseDep dep, parseOp op, parseOpd l, parseOpd r with
+    | some n, some d, some o, some (.pbox p), some y => showP (method n o d p y)
+    | some n, some d, some o, some (.dss p), some y => showP (method n o d p y)
+    | _, _, _, _, _ => "bad-op"
+  | ["spec", steps, dep, op, l, r] =>
+    match parseNat steps, parseDep dep, parseOp op, parseOpd l, parseOpd r with
+    | some n, some d, some o, some x, some y => showP (spec n d o x y)
+    | _, _, _, _, _ => "bad-op"
+  | ["conv", steps, which, x] =>
+    match parseNat steps, parseOpd x with
+    | some n, some x =>
+      match which with
+      | "p" => showP (convertPbox n x)
+      | "o" => showP (convert n x)
+      | _ => "bad-op"
+    | _, _ => "bad-op"
+  | toks => Pun.Drv.PBoxCommon.handle toks
 
 end Pun.Drv.C07
